@@ -473,7 +473,10 @@ def parseLine(raw, eols=(CRLF, LF, CR ), kind="event line"):
         index, eol = findEol(raw, eols)
 
         if index < 0:  # not found
-            if len(raw) > MAX_LINE_SIZE:
+            size = len(raw)
+            if CRLF in eols and raw[-1:] == CR:  # CR of CR LF split across raw extensions
+                size -= 1  # is not part of line
+            if size > MAX_LINE_SIZE:
                 raise LineTooLong(kind)
             else:
                 (yield None)  # more data needed not done parsing header
@@ -504,7 +507,10 @@ def parseLeader(raw, eols=(CRLF, LF), kind="leader header line", headers=None):
         index, eol = findEol(raw, eols)  # earliest eol
 
         if index < 0:  # not found
-            if len(raw) > MAX_LINE_SIZE:
+            size = len(raw)
+            if CRLF in eols and raw[-1:] == CR:  # CR of CR LF split across raw extensions
+                size -= 1  # is not part of line
+            if size > MAX_LINE_SIZE:
                 raise LineTooLong(kind)
             else:
                 (yield None)  # more data needed not done parsing header
